@@ -24,7 +24,7 @@ let step_of (st : string) : step =
   | ["M"; k; v] -> SMerge (hb k, hb v)
   | ["C"] | ["c"] -> SCommit
   | ["X"] -> SClear
-  | ["N"] -> SNewBatch
+  | ["N"] | ["W"] -> SNewBatch
   | ["F"] -> SFlush
   | ["G"; k] -> SGet (hb k)
   | ["E"; k] -> SExist (hb k)
